@@ -234,7 +234,7 @@ def check(prop, tier, seed):
     vectors = [v for L in range(1, max_size + 1) for v in itertools.product(ALPHABET, repeat=L)]
     # multiset alphabet {-inf, -1.5, 0, 0, 2, 2, +inf}: ties arise from repeated letters in product()
     chunks = 48
-    items = [{"seed": f"{seed}/{k}", "vectors": vectors[k::chunks], "n_rand": 8 if tier == "quick" else 150} for k in range(chunks)]
+    items = [{"seed": f"{seed}/{k}", "vectors": vectors[k::chunks], "n_rand": 8 if tier == "quick" else 600} for k in range(chunks)]
     res = runner.run_parallel("pvmon.props.c16", "work", items, {}, batch=1)
     pops = 0
     for it, r in zip(items, res):
